@@ -675,12 +675,6 @@ def m_f9(v):
         d.get('lumped_beyond_subspan') is True and 'Lumped loss positions' in d.get('exc', '')
 
 
-def m_f12(v):
-    d = v.get('detail', {})
-    return v['key'] == 'design_raises' and d.get('exc_type') == 'ConfigurationError' and d.get('roadm_target_zero') is True \
-        and 'needs an equalization target' in d.get('exc', '')
-
-
 def m_f15(v):
     """span_loss / estimate_raman_gain called without input power for a Raman span"""
     d = v.get('detail', {})
@@ -712,7 +706,6 @@ MODEL_EXCEPTIONS = ('TypeError', 'ZeroDivisionError', 'NetworkTopologyError')
 
 MATCHERS = {
     'F9-split-lumped': m_f9,
-    'F12-roadm-target-zero': m_f12,
     'F15-raman-span-loss-without-power': m_f15,
     'F16-min-length-above-max-length': m_f16,
     'F17-padding-skipped-at-fused': m_f17,
@@ -788,7 +781,7 @@ def run(ctx):
     if ctx.replay:
         cases = [json.load(open(ctx.replay))['case']]
     else:
-        n = ctx.scale(260, 6000)
+        n = ctx.scale(240, 4000)
         cases += [gen_case(rng) for _ in range(n)]
         cases += [gen_case(rng, 'raman_auto') for _ in range(ctx.scale(4, 40))]
         cases += [gen_case(rng, 'risky_span') for _ in range(ctx.scale(6, 60))]
